@@ -793,7 +793,10 @@ func (h adminHandler) serveHTTP(w http.ResponseWriter, r *http.Request) {
 		}
 	}
 
-	if strings.Contains(r.Header.Get("Upgrade"), "websocket") {
+	// protocol names are case-insensitive and the field can occur more than once
+	if slices.ContainsFunc(r.Header.Values("Upgrade"), func(v string) bool {
+		return strings.Contains(strings.ToLower(v), "websocket")
+	}) {
 		// I've never been able demonstrate a vulnerability myself, but apparently
 		// WebSocket connections originating from browsers aren't subject to CORS
 		// restrictions, so we'll just be on the safe side
